@@ -20,7 +20,6 @@ from hypothesis import strategies as st
 from ..core import Result, exc_where, canon
 from .. import spec as S
 from .. import agentB_ops as O
-from .. import known
 from .. import libstate
 
 ID = 'C05'
